@@ -187,7 +187,7 @@ def enumerate_model(src, rep, it, writer):
     rep.extracted["deviations"] = bad
 
 
-PROBE_TEXTS = ["a\n", "\n", "a\r\nb", "a\rb", "a\x0bb", "a\x0cb", "a\u2028b", "\tx ", "   ", " a", "a ", "\u00e9\u2713\uff25", "x" * 40, "0", "m", "[31m"]
+PROBE_TEXTS = ["e\u0301", "\u212b\u1100\u1161", "\uf900", "a\n", "\n", "a\r\nb", "a\rb", "a\x0bb", "a\x0cb", "a\u2028b", "\tx ", "   ", " a", "a ", "\u00e9\u2713\uff25", "x" * 40, "0", "m", "[31m"]
 PROBE_ATTS = [{"fg": 31}, {"bg": 44}, {"bold": True}, {"dark": True}, {"italic": True}, {"underline": True}, {"blink": True}, {"invert": True},
               {"fg": 32, "bg": 41, "bold": True}, {"bg": 47, "underline": False}, {}]
 
